@@ -370,7 +370,8 @@ def rule_f(ctx, ix):
     al = ix.func('glue.core.link_manager.accessible_links')
     t = ' '.join(unparse(r.value) for r in returns_of(al) if r.value is not None).replace(' ', '')
     ctx.idiom(R, al.construct, 'a link is usable when all of its inputs are known', accepted='set(l.get_from_ids())<=cids' in t,
-              absent='get_from_ids' not in t, detail_absent='accessible_links no longer tests the inputs of a link', shape=t, where=al.where)
+              absent=('get_from_ids' not in t) or ('&cids' in t) or ('isdisjoint' in t) or ('>=cids' in t),
+              detail_absent='accessible_links no longer requires *all* inputs of a link to be known (%s): links are applied to datasets that cannot evaluate them' % t, shape=t, where=al.where)
     loops = [n for n in walk_no_nested(d.node) if isinstance(n, ast.For) and 'accessible_links' in unparse(n.iter)]
     if len(loops) != 1:
         raise AnalysisError('discover_links: loop over the accessible links not recognised')
